@@ -107,6 +107,7 @@ SEGMENTS = {
         file="src/dev/cache.rs", fn="commit_header", start="FULL",
         sig="pub(crate) fn seg_h0<F>(&self, h: &mut Qcow2Header, rollback: F) -> Qcow2Result<()> where F: FnOnce(&mut Qcow2Header)",
         await_calls=["call_write"], await_calls_opt=["call_read"],
+        rewrites=[(r"self\.k_call_write\(", "self.k_call_write_q(")],
     ),
     # ---- refcount-table growth: the argument list handed to RefTable::clone_and_grow
     "G0": dict(
@@ -115,5 +116,51 @@ SEGMENTS = {
         pre="        let info = &self.info;",
         await_calls=["grow_reftable"],
         post="        Ok(())",
+    ),
+    # ---- read prologue once more, over a REAL caller buffer (content observable)
+    "RB": dict(
+        file="src/dev/read.rs", fn="__read_at", start="PROLOGUE",
+        sig="pub(crate) fn seg_rb(&self, buf: &mut [u8], mut offset: u64) -> Qcow2Result<usize>",
+        post=EPI + "        self.out.set([single as u64, len as u64, offset, extra as u64, buf.len() as u64, 0]);\n        Ok(0)",
+    ),
+    # ---- mapping creation steps
+    "L0": dict(
+        file="src/dev/write.rs", fn="ensure_l2_offset", start=r"let allocated = self\.allocate_cluster\(\)", end="END",
+        sig="pub(crate) fn seg_l0(&self, l1_table: &mut L1Table, l1_index: usize) -> Qcow2Result<L1Entry>",
+        pre="        let info = &self.info;",
+        await_calls=["allocate_cluster", "mark_new_cluster"],
+    ),
+    "L1": dict(
+        file="src/dev/write.rs", fn="alloc_and_map_cluster", start="FULL",
+        sig="pub(crate) fn seg_l1(&self, split: &SplitGuestOffset, l2_table: &mut L2Table) -> Qcow2Result<Mapping>",
+        await_calls=["allocate_cluster", "mark_new_cluster"],
+    ),
+    "M1": dict(
+        file="src/dev/write.rs", fn="make_single_write_mapping", start="FULL",
+        sig="pub(crate) fn seg_m1(&self, virt_off: u64) -> Qcow2Result<L2Entry>",
+        await_calls=["ensure_l2_offset", "get_l2_slice", "alloc_and_map_cluster"],
+        rewrites=[(r"\.write\(\)\.await", ".kwrite()")],
+    ),
+    "M0": dict(
+        file="src/dev/write.rs", fn="__make_multiple_write_mapping", start="FULL",
+        sig="pub(crate) fn seg_m0(&self, start: u64, end: u64, l2_entries: &mut KVec<L2Entry>) -> Qcow2Result<usize>",
+        await_calls=["ensure_l2_offset", "get_l2_slice", "allocate_clusters", "allocate_cluster", "mark_new_cluster"],
+        rewrites=[(r"\.write\(\)\.await", ".kwrite()")],
+    ),
+    # ---- batch L2 lookup of the multi-cluster read path
+    "GE": dict(
+        file="src/dev/read.rs", fn="get_l2_entries", start="FULL",
+        sig="pub(crate) fn seg_ge(&self, off: u64, len: usize) -> Qcow2Result<KVec<L2Entry>>",
+        await_calls=["get_l1_entry", "get_l2_slice_slow"],
+        rewrites=[
+            (r"\.read\(\)\.await", ".kread()", 2),
+            (r"Vec::with_capacity\(\(\(end - start\) as usize\) >> info\.cluster_bits\(\)\)", "KVec::new()"),
+        ],
+    ),
+    # ---- cross-slice allocation with fragment retry
+    "T0": dict(
+        file="src/dev/alloc.rs", fn="try_allocate_from", start="FULL",
+        sig="pub(crate) fn seg_t0(&self, mut host_cluster: u64, alloc_cnt: usize) -> Qcow2Result<Option<(u64, usize)>>",
+        await_calls=["ensure_refblock_offset", "try_alloc_from_rb_slice", "free_clusters"],
     ),
 }
